@@ -60,6 +60,7 @@ func c15Text(c C15Case) string {
 	}
 	b.WriteString("}\n")
 	b.WriteString("/p {\n  pull { path /pull/p }\n}\n")
+	b.WriteString("/small {\n  max_body 3b\n  pull { path /pull/small }\n}\n")
 	b.WriteString("/d1 {\n  deliver \"https://one.example.org/h\" {\n  }\n}\n")
 	b.WriteString("/d2 {\n  deliver \"https://two-a.example.org/h\" {\n  }\n  deliver \"https://two-b.example.org/h\" {\n  }\n}\n")
 	b.WriteString("/off {\n  publish off\n  pull { path /pull/off }\n}\n")
@@ -69,7 +70,7 @@ func c15Text(c C15Case) string {
 	return b.String()
 }
 
-var c15Targets = map[string]string{"/p": "pull", "/d1": "https://one.example.org/h", "/d2": "https://two-b.example.org/h", "/m": "pull", "/out": "https://out.example.org/h",
+var c15Targets = map[string]string{"/small": "pull", "/p": "pull", "/d1": "https://one.example.org/h", "/d2": "https://two-b.example.org/h", "/m": "pull", "/out": "https://out.example.org/h",
 	"/off": "pull", "/nodirect": "pull"}
 
 var c15Invalid = []string{"unknown-route", "relative-route", "managed-route", "selector-hint", "target-not-allowed", "target-ambiguous", "publish-off", "direct-off",
@@ -92,7 +93,15 @@ func genC15Case() *rapid.Generator[C15Case] {
 		for i := 0; i < np; i++ {
 			c.Prefill = append(c.Prefill, fmt.Sprintf("pre-%d", i))
 		}
-		n := rapid.SampledFrom([]int{1, 2, 3, 3, 4, 6, 12}).Draw(t, "nitems")
+		n := rapid.SampledFrom([]int{1, 2, 3, 3, 4, 6, 12, 12, 300, 520}).Draw(t, "nitems")
+		if n >= 300 {
+			// big batches: make the capacity boundary fall inside the batch
+			c.Depth = rapid.SampledFrom([]int{280, 400, 1000}).Draw(t, "big_depth")
+			c.Prefill = nil
+			for i := 0; i < rapid.SampledFrom([]int{0, 20}).Draw(t, "big_prefill"); i++ {
+				c.Prefill = append(c.Prefill, fmt.Sprintf("pre-%d", i))
+			}
+		}
 		ninv := rapid.SampledFrom([]int{0, 0, 1, 1, 1, 2}).Draw(t, "ninvalid")
 		invalidAt := map[int]string{}
 		for k := 0; k < ninv; k++ {
@@ -100,13 +109,21 @@ func genC15Case() *rapid.Generator[C15Case] {
 		}
 		for i := 0; i < n; i++ {
 			it := C15Item{ID: fmt.Sprintf("it-%d", i)}
-			it.Route = rapid.SampledFrom([]string{"/p", "/p", "/d1", "/d2", "/out"}).Draw(t, "route")
+			it.Route = rapid.SampledFrom([]string{"/p", "/p", "/d1", "/d2", "/out", "/small", "/small"}).Draw(t, "route")
 			if c.Scoped {
 				it.Route = "/m"
 			}
-			it.PayLen = rapid.SampledFrom([]int{0, 1, c.MaxBody - 1, c.MaxBody}).Draw(t, "pay_len")
+			limit := c.MaxBody
+			if it.Route == "/small" {
+				limit = 3
+			}
+			it.PayLen = rapid.SampledFrom([]int{0, 1, limit - 1, limit}).Draw(t, "pay_len")
 			if it.PayLen < 0 {
 				it.PayLen = 0
+			}
+			if it.Route == "/small" && rapid.IntRange(0, 2).Draw(t, "over_route_limit") == 0 && invalidAt[i] == "" {
+				// fits the global default but not this route's own max_body
+				invalidAt[i] = "payload-over-route-limit"
 			}
 			it.Hdr = rapid.IntRange(0, 3).Draw(t, "hdr")
 			it.TS = rapid.SampledFrom([]int{0, 0, 1, 2}).Draw(t, "ts")
@@ -209,8 +226,18 @@ func c15Build(c C15Case) (items []map[string]any, invalid map[int]string) {
 				m["route"] = "/nodirect"
 				m["target"] = "pull"
 			}
+		case "payload-over-route-limit":
+			if r, _ := m["route"].(string); r == "/small" && c.MaxBody > 3 {
+				m["payload_b64"] = base64.StdEncoding.EncodeToString([]byte(strings.Repeat("x", 4)))
+			} else {
+				kind = ""
+			}
 		case "payload-too-large":
-			m["payload_b64"] = base64.StdEncoding.EncodeToString([]byte(strings.Repeat("x", c.MaxBody+1)))
+			lim := c.MaxBody
+			if r, _ := m["route"].(string); r == "/small" {
+				lim = 3
+			}
+			m["payload_b64"] = base64.StdEncoding.EncodeToString([]byte(strings.Repeat("x", lim+1)))
 		case "bad-base64":
 			m["payload_b64"] = "!!!not base64!!!"
 		case "headers-too-large":
@@ -251,7 +278,7 @@ func c15Build(c C15Case) (items []map[string]any, invalid map[int]string) {
 				r = "" // on the scoped path the route policy is a request-level cause (see runC15)
 			}
 			switch {
-			case c.Policy == "no_pull" && (r == "/p" || r == "/m"):
+			case c.Policy == "no_pull" && (r == "/p" || r == "/m" || r == "/small"):
 				invalid[i] = "policy-no-pull"
 			case c.Policy == "no_deliver" && (r == "/d1" || r == "/d2" || r == "/out"):
 				invalid[i] = "policy-no-deliver"
